@@ -150,6 +150,7 @@ pub open spec fn mc_loop_inv(o: &StateMachine, s: &StateMachine, k: int) -> bool
     &&& s.painter.merge_conflict_commit_names == o.painter.merge_conflict_commit_names
     &&& s.painter.minus_lines@ == o.painter.minus_lines@ && s.painter.plus_lines@ == o.painter.plus_lines@
     &&& s.painter.output_buffer@.len() == 0
+    &&& (s.painter.line_numbers_data is Some) == (o.painter.line_numbers_data is Some)
     &&& 0 <= k <= 2
     &&& exists|b1: Seq<char>, b2: Seq<char>| #[trigger] mc_bufs_ok(o, k, b1, b2) && s.painter.writer.hist() == mc_hist(o, k, b1, b2)
 }
